@@ -223,27 +223,40 @@ def write_replay(prop, case, violation, seed, tier):
     return path
 
 
-def run_regressions(prop, mod):
+def _replay_one(args):
+    prop, path = args
+    try:
+        setup_repo()
+        mod = _load_check(prop)
+        with open(path) as f:
+            rep = json.load(f)
+        out = mod.run_case(rep["case"])
+        return path, [v.as_dict() for v in out.violations], None
+    except BaseException:
+        return path, [], traceback.format_exc()
+
+
+def run_regressions(prop, mod, pool=None):
     """Replay committed minimal cases: open findings must still show their signature
     (-> KNOWN-FINDING line); 'pass' cases (fixed findings, killed mutants) must pass."""
     d = os.path.join(VERIF, "replays", prop)
-    results = {"ran": 0, "known_reproduced": [], "known_gone": [], "violations": []}
+    results = {"ran": 0, "known_reproduced": [], "known_gone": [], "violations": [], "errors": []}
     known = open_signatures(prop)
     reproduced = set()
+    files = []
     if os.path.isdir(d):
-        for name in sorted(os.listdir(d)):
-            if not name.endswith(".json"):
-                continue
-            with open(os.path.join(d, name)) as f:
-                rep = json.load(f)
-            out = mod.run_case(rep["case"])
-            results["ran"] += 1
-            sigs = [v.signature for v in out.violations]
-            for v in out.violations:
-                if v.signature in known:
-                    reproduced.add(v.signature)
-                else:
-                    results["violations"].append((os.path.join(d, name), v))
+        files = [os.path.join(d, n) for n in sorted(os.listdir(d)) if n.endswith(".json")]
+    jobs = [(prop, f) for f in files]
+    outs = pool.map(_replay_one, jobs, chunksize=1) if (pool is not None and len(jobs) > 1) else [_replay_one(j) for j in jobs]
+    for path, vios, err in outs:
+        results["ran"] += 1
+        if err:
+            results["errors"].append(err)
+        for v in vios:
+            if v["signature"] in known:
+                reproduced.add(v["signature"])
+            else:
+                results["violations"].append((path, v))
     for sig, e in sorted(known.items()):
         if sig in reproduced:
             results["known_reproduced"].append(e)
@@ -295,19 +308,19 @@ def main_check(prop, argv):
         examples = a.examples
 
     violations = []
-    reg = run_regressions(prop, mod)
-    for path, v in reg["violations"]:
-        violations.append({"replay": path, "violation": v.as_dict()})
-
     jobs = [(prop, tier, a.seed, s, examples, shards) for s in range(shards)]
     ctx = multiprocessing.get_context("fork")
     if shards == 1:
+        reg = run_regressions(prop, mod)
         res = [_shard(jobs[0])]
     else:
         with ctx.Pool(min(shards, os.cpu_count() or 1)) as pool:
+            reg = run_regressions(prop, mod, pool)
             res = pool.map(_shard, jobs, chunksize=1)
+    for path, v in reg["violations"]:
+        violations.append({"replay": path, "violation": v})
 
-    errors = [r["error"] for r in res if r.get("error")]
+    errors = [r["error"] for r in res if r.get("error")] + reg["errors"]
     evaluations = sum(r["evaluations"] for r in res) + reg["ran"]
     nontrivial = set()
     classes = collections.Counter()
